@@ -487,6 +487,13 @@ theorem validateArray_safe {n : Nat} {db : Db} {i : Nat} {o : QObj} {c : Ref} :
   unfold validateArray; sauto
 macro_rules | `(tactic| sleaf) => `(tactic| exact validateArray_safe)
 
+macro_rules | `(tactic| sleaf) => `(tactic| exact Safe.allocM.weaken (fun _ _ => trivial))
+
+theorem validateWith_safe {n : Nat} {db : Db} {i : Nat} {vals : ValSrc} {qsrc : Option Nat} :
+    Safe n (validateWith db i vals qsrc) (fun _ => True) := by
+  unfold validateWith; sauto
+macro_rules | `(tactic| sleaf) => `(tactic| exact validateWith_safe)
+
 theorem checkValidityE_safe {n : Nat} {db : Db} {i : Nat} : Safe n (checkValidityE db i) (fun _ => True) := by
   unfold checkValidityE; sauto
 macro_rules | `(tactic| sleaf) => `(tactic| exact checkValidityE_safe)
